@@ -129,6 +129,68 @@ def triple_sub(chk, rng, w, wid, plan=None):
     return steps, judge
 
 
+def portions_sub(chk, rng, w, wid):
+    """ordering of quantities that came out of allocate() (adjusted in place
+    by the dispersal) against each other and against fresh equal ones"""
+    qunits = [s_ for s_ in w.units if w.quantum_of(s_) is not None and
+              w.types[w.units[s_].tname].has_ref]
+    u = rng.choice(qunits)
+    q = w.quantum_of(u)
+    x = rng.randint(1, 400) * q
+    n = rng.choice([3, 3, 6, 7])
+    ratios = ["l", [["i", rng.choice([1, 1, 1, 2, 3])] for _ in range(n)]]
+    steps = [{"id": "al", "e": M(Q(num(x), u), "allocate", ratios)},
+             {"id": "ps", "k": "ps", "e": ["idx", V("al"), 0]}]
+    pairs = [(i, j) for i in range(n) for j in range(n)][:20]
+    for i in range(n):
+        steps.append({"id": "f%d" % i,
+                      "e": ["c", ["g", "quantity:Quantity"],
+                            [["a", ["idx", V("ps"), i], "amount"], U(u)]]})
+    for i, j in pairs:
+        for op in OPS:
+            steps.append({"k": "p%d%s%d" % (i, op, j),
+                          "e": OP(op, ["idx", V("ps"), i],
+                                  ["idx", V("ps"), j])})
+            if i == j:
+                steps.append({"k": "f%d%s%d" % (i, op, j),
+                              "e": OP(op, ["idx", V("ps"), i],
+                                      V("f%d" % i))})
+    steps.append({"k": "sorted", "e": ["un", "sorted", V("ps")]})
+
+    def judge(obs):
+        ps = (obs or {}).get("ps")
+        if ps is None or ps.get("k") != "T":
+            chk.inconclusive_because("allocation for comparison not observed")
+            return
+        chk.case((wid, "portions", u, str(x), n))
+        chk.count("comparisons of allocate() results")
+        vals = [val(p) for p in ps["items"]]
+        bad = []
+        for i, j in pairs:
+            for op in OPS:
+                r = obs.get("p%d%s%d" % (i, op, j), {})
+                want = PY[op](vals[i], vals[j])
+                if r.get("v") is not want:
+                    bad.append("portion %s %s %s portion %s %s is %s" %
+                               (vals[i], u, op, vals[j], u, brief(r)))
+                if i == j:
+                    r = obs.get("f%d%s%d" % (i, op, j), {})
+                    want = PY[op](vals[i], vals[i])
+                    if r.get("v") is not want:
+                        bad.append("portion %s %s %s an equal fresh quantity "
+                                   "is %s" % (vals[i], u, op, brief(r)))
+        srt = obs.get("sorted", {})
+        if srt.get("k") == "T":
+            seq = [val(p) for p in srt["items"]]
+            if seq != sorted(vals):
+                bad.append("sorted(portions) = %s" % [str(v) for v in seq])
+        if bad:
+            chk.violation("%s: %s" % (w.units[u].tname, bad[0]),
+                          dict(obs={"ps": ps}, steps=steps[:2],
+                               problems=bad[:10]), "comparison")
+    return steps, judge
+
+
 def unit_pair_sub(chk, w, wid, s1, s2, plan=None):
     steps = [{"k": op, "e": OP(op, U(s1), U(s2))} for op in OPS]
 
@@ -174,6 +236,10 @@ def run(chk, R, tier, seed):
     for _ in range(n):
         st, jd = triple_sub(chk, rng, w, "predefined")
         cases.append(Case(st, wrap(jd)))
+    for _ in range(150 if tier == "quick" else 3000):
+        st, jd = portions_sub(chk, rng, w, "predefined")
+        cases.append(Case(st, wrap(jd)))
+    chk.require("comparisons of allocate() results")
     run_cases(chk, R, cases, per_program=60)
     nw = 60 if tier == "quick" else 800
     cases = []
